@@ -42,6 +42,15 @@ theorem new_const_eq (bits : Nat) (o : Order) (data : List Nat) (size : Sz) :
       if data.length = bytesPerRow size.w bits * size.h then some ⟨bits, o, data, size⟩ else none :=
   ImageRaw.newConst_eq bits o data size
 
+/-- A buffer accepted by `new` (of one of the seven raw types, with sizes that survive `as i32` and
+at most `usize::MAX` pixels) is well formed: the hypothesis `WF` of the theorems below. -/
+theorem wf_of_new (bits : Nat) (o : Order) (data : List Nat) (size : Sz) (im : ImageRaw)
+    (h : ImageRaw.new bits o data size = .ok im) (hb : validBits bits = true)
+    (hw : size.w ≤ 2147483647) (hh : size.h ≤ 2147483647) (hf : Fits bits data) : im.WF :=
+  ImageRaw.wf_of_new h hb hw hh hf
+example : ImageRaw.new 1 .le [0xAA, 0x00, 0x55, 0xFF, 0xAA, 0x80] ⟨9, 3⟩ = .ok exIm :=
+  (ImageRaw.new_ok_iff _ _ _ _ _).mpr ⟨by decide, rfl⟩
+
 /-- Rows are padded to whole bytes: `bytes_per_row` is the least number of bytes holding `w` pixels. -/
 theorem bytes_per_row_is_ceiling (w bits : Nat) :
     w * bits ≤ 8 * bytesPerRow w bits ∧ 8 * bytesPerRow w bits < w * bits + 8 :=
@@ -158,6 +167,15 @@ theorem sub_stream (d : Drawable) (h : d.Good) :
       (d.draw = [] ∧ d.boundingBox.isZeroSized = true) := by
   rw [Rect.points_eq_spec]; exact Drawable.draw_spec h
 
+/-- **`sub_stream_length`**: whatever a good drawable (raw image, sub-image, nested sub-image)
+hands to `fill_contiguous` has exactly `width * height` colours for the area it names — also when
+more image data follows the last row of a sub-image. -/
+theorem sub_stream_length (d : Drawable) (h : d.Good) (a : Rect) (cs : List Color)
+    (hc : Call.fillContiguous a cs ∈ d.draw) :
+    a = d.boundingBox ∧ cs.length = a.size.w * a.size.h := Drawable.stream_length h hc
+example : Call.fillContiguous ⟨⟨0, 0⟩, ⟨3, 2⟩⟩ [0, 1, 1, 1, 0, 1] ∈
+    ((Drawable.raw exIm).subImage ⟨⟨6, 1⟩, ⟨9, 2⟩⟩).draw := by decide
+
 /-- The picture of a sub-image: the parent's pixels inside the clipped area, re-based to the origin. -/
 theorem sub_pixel_spec (d : Drawable) (area : Rect) (p : Pt) :
     (d.subImage area).pixelSpec p =
@@ -200,7 +218,7 @@ theorem draw_exact (d : Drawable) (h : d.Good) (o : Pt) (hr : (Image.new d o).bo
   rw [Image.runNative_draw _ h hr]
   unfold Image.picture
   by_cases hb : B.contains q = true <;> by_cases hc : (Image.new d o).boundingBox.contains q = true <;>
-    simp only [hb, hc, and_self, and_false, false_and, and_true, ↓reduceIte, Bool.false_eq_true] <;> rfl
+    simp only [hb, hc, and_self, and_false, and_true, ↓reduceIte, Bool.false_eq_true] <;> rfl
 example : (Image.new (.raw exIm) ⟨-4, 7⟩).boundingBox.InRange := by decide
 
 /-- The same on a target that implements `draw_iter` only (trait defaults). -/
